@@ -231,20 +231,18 @@ def indexOf? (l : List Seq) (x : Seq) : Option Nat :=
   | [] => none
   | a :: as => if a == x then some 0 else (indexOf? as x).map (· + 1)
 
-/-- the order in which `all_variants` enumerates the variants of one choice:
-    sorted by `(|alphasort[v] - alphasort[current]|, v)`; `none` = KeyError (current
-    segment not among the variants) -/
 def distTo (cur i : Nat) : Nat := if i ≥ cur then i - cur else cur - i
 
 /-- the sort key comparison `(|alphasort[v] - alphasort[current]|, v)` on (variant, alphabetical rank) pairs -/
 def distLe (cur : Nat) (a b : Seq × Nat) : Bool :=
   distTo cur a.2 < distTo cur b.2 || (distTo cur a.2 == distTo cur b.2 && seqLe a.1 b.1)
 
-def variantsByDistance (c : Choice) (s : Seq) : Option (List Seq) :=
+/-- the order in which `all_variants` visits the variants of one choice; when the current
+    sub-sequence is not one of the variants its rank defaults to 0 -/
+def variantsByDistance (c : Choice) (s : Seq) : List Seq :=
   let sorted := sortSeqs c.variants
-  match indexOf? sorted (c.seg s) with
-  | none => none
-  | some cur => some ((sorted.zipIdx.mergeSort (distLe cur)).map (·.1))
+  let cur := (indexOf? sorted (c.seg s)).getD 0
+  (sorted.zipIdx.mergeSort (distLe cur)).map (·.1)
 
 def optAll {α : Type} : List (Option α) → Option (List α)
   | [] => some []
@@ -256,10 +254,8 @@ def allVariants (sp : Space) (s : Seq) : Except SpaceErr (List Seq) :=
   match sp.choicesSpan with
   | none => .ok [s]      -- fully determined space: the only variant is the sequence itself
   | some _ =>
-    match optAll (sp.multichoices.map (fun c => (variantsByDistance c s).map (fun vs => vs.map (fun v => (c.start, v))))) with
-    | none => .error (.crash "KeyError: current segment not among the variants")
-    | some slots =>
-      .ok ((Choice.cartesian slots).map (fun combo => combo.foldl (fun acc m => splice acc m.1 m.2) s))
+    let slots := sp.multichoices.map (fun c => (variantsByDistance c s).map (fun v => (c.start, v)))
+    .ok ((Choice.cartesian slots).map (fun combo => combo.foldl (fun acc m => splice acc m.1 m.2) s))
 
 /-! ### construction from restrictions -/
 
